@@ -63,7 +63,7 @@ def _cols(r: random.Random) -> list:
 
 def gen_cases(tier: str, seed: int):
     r = random.Random(f"{seed}:C09")
-    n, maxsteps = (150, 15) if tier == "quick" else (2500, 30)
+    n, maxsteps = (150, 15) if tier == "quick" else (1000, 30)
     for _ in range(n):
         steps = []
         for _ in range(r.randint(5, maxsteps)):
@@ -245,17 +245,17 @@ def _run(case: dict, env: core.Env, fs: Any) -> None:
 
 
 def _cause(o: dict, col: str | None = None, field: str = "") -> str:
-    """Which earlier operation on the object can explain a metadata discrepancy (part of the mechanism key)."""
-    tags = o.get("tags", set())
+    """Which earlier operation on the object can explain a metadata discrepancy in this field (part of the mechanism key)."""
+    tags = set(o.get("tags", set()))
     if col is not None and col in o.get("renamed_cols", set()):
-        return "column-renamed"
-    if "table-renamed" in tags:
-        return "table-renamed"
-    if "cloned" in tags:
-        return "cloned"
-    if "ctas" in tags:
-        return "ctas"
-    return "no-earlier-operation"
+        tags.add("column-renamed")
+    if field in ("is_nullable", "nullable"):
+        relevant = ["cloned"]
+    elif field in ("comment",):
+        relevant = ["table-renamed", "cloned"]
+    else:
+        relevant = ["column-renamed", "table-renamed", "cloned", "ctas"]
+    return next((t for t in relevant if t in tags), "no-earlier-operation")
 
 
 def _has_view_on(model: dict, key: tuple) -> bool:
@@ -325,7 +325,7 @@ def _observe(env: core.Env, conns: dict, model: dict, hist: str, op: str) -> boo
         if dif:
             for k3, w, g in dif:
                 kind = "stale-comment" if (g not in (None, "") and not w) else "lost-or-wrong-comment"
-                bad("information_schema.tables", f"{kind}/{_cause(model[k3])}", f"(object, declared, reported): {(k3, w, g)}")
+                bad("information_schema.tables", f"{kind}/{_cause(model[k3], None, 'comment')}", f"(object, declared, reported): {(k3, w, g)}")
         # 2. information_schema.columns
         env.count("cmp_is_columns")
         rows = _q(obs, "SELECT table_schema, table_name, column_name, ordinal_position, data_type, character_maximum_length, numeric_precision, "
